@@ -206,7 +206,7 @@ func TestCheck(t *testing.T) {
 				orders := sys.Orders()
 				for oi, ord := range orders {
 					d := sys.DelayBounded(ss.DelayOptions{MaxDelays: cfg.Delays, MaxDev: cfg.MaxDev, MaxDepth: 400, Order: ord, Workers: env.Workers,
-						Deadline: time.Now().Add(share / 2 / time.Duration(len(orders)-oi)),
+						Deadline:   time.Now().Add(share / 2 / time.Duration(len(orders)-oi)),
 						Constraint: cfg.Constraint, Invariants: []func(*ss.State) (string, string){histInv}, MaxViol: 5})
 					if d.MemoMismatch > 0 {
 						t.Fatalf("transition memo disagrees with the real code: %s", d.MemoFirstMismatch)
@@ -264,6 +264,7 @@ func TestCheck(t *testing.T) {
 				samples = append(samples, map[string]any{"config": cfg.Name, "trace": sys.Render(r.PathTo(r.Leaves[len(r.Leaves)/2]))})
 			}
 		}
+		res.Assumptions = []string{"one label = one atomic step (state injection into a fresh real MPCalContext per step): the runtime gives this isolation only while no section combines a shared variable with an asynchronous mailbox commit (see the C16 known finding replicatedkv/assertion/get-overtaken-by-disconnect; raftkvs bootstrap has the same combination)", "links are FIFO per sender (the spec's ReliableFIFOLink written in Go, validated against TLC by C02): the relaxed mailboxes provide this only while no write timeout fires (see the C06 known finding relaxed/reordered-after-write-timeout)", "environment deviations (failure-detector answers, timeouts, netLen) are budgeted as described in DESIGN 8.5/8.9", "128-bit state hashing (collision probability negligible)"}
 		res.Coverage = map[string]any{"states": states, "transitions": trans, "traces_validated_against_impl": validated, "samples": samples, "configs": per, "exhaustive": exhaustive,
 			"distinct_histories_checked": len(histCache), "known_witness_paths_replayed": witnessReplayed}
 		return res
